@@ -85,7 +85,7 @@ theorem tokenize_lossless (str : Bytes) (h0 : str.head? ≠ some 34) :
 example : Gen.tokenize [46, 97, 91, 34, 46, 34, 93] = .ok ([[46, 97], [91, 34, 46, 34, 93]], true) := by
   rw [tokenize_eq _ (by decide)]; exact congrArg _ (by decide)
 
-variable {D C : Type} [DecidableEq D]
+variable {D C A : Type} [DecidableEq D]
 
 /-- C04, on the regenerated `delegation.Token.IsValidAt`: valid strictly inside the window, invalid strictly outside -/
 theorem Dlg_IsValidAt_window {S : Type} (undef : D) (g : Gen.DlgTok D S) (t : Int) :
@@ -100,7 +100,7 @@ theorem Dlg_IsValidAt_window {S : Type} (undef : D) (g : Gen.DlgTok D S) (t : In
 
 /-- C01/C02, on the regenerated `verifyProofs`: it returns nil exactly for the chains that satisfy the principal and
 command clauses of the specification (one delegation loaded per proof CID, defined subject) -/
-theorem verifyProofs_ok_iff_spec {S X : Type} (x : X) (args : Node) (undef : D) (pol) (g : Gen.InvTok D C)
+theorem verifyProofs_ok_iff_spec {S X : Type} (x : X) (args : Node) (undef : D) (pol) (g : Gen.InvTok D C A)
     (ds : List (Gen.DlgTok D S)) (hs : g.subject ≠ undef) (hlen : ds.length = g.proof.length) :
     Gen.Inv_verifyProofs g ds = .ok () ↔
       Chain.PrincipalSpec (toInv x args g) (ds.map (toDlg undef pol)) ∧
@@ -112,7 +112,7 @@ theorem verifyProofs_ok_iff_spec {S X : Type} (x : X) (args : Node) (undef : D) 
 EXACTLY when every statement of the policy of every loaded delegation admits the arguments — no delegation of the chain is
 skipped -/
 theorem verifyArgs_ok_iff_spec {A : Type} (undef : D) (pol : Gen.DlgTok D Policy.Stmt → List Policy.Stmt)
-    (extIPLD : A → GoM Node) (g : Gen.InvTok D C) (ds : List (Gen.DlgTok D Policy.Stmt)) (a : A) (args : Node)
+    (extIPLD : A → GoM Node) (g : Gen.InvTok D C A) (ds : List (Gen.DlgTok D Policy.Stmt)) (a : A) (args : Node)
     (hlen : ds.length = g.proof.length) (hipld : extIPLD a = .ok args)
     (hpol : ∀ d ∈ ds, d.policy = (pol d).map some) :
     Gen.Inv_verifyArgs extMatch extIPLD g ds a = .ok () ↔ Chain.PolicySpec (ds.map (toDlg undef pol)) args := by
@@ -127,7 +127,7 @@ theorem executionAllowed_ok_iff_spec {X L A : Type} (x : X) (args : Node) (undef
     (extGet : L → C → GoM (Gen.DlgTok D Policy.Stmt))
     (extIPLD : A → GoM Node)
     (ldG : C → Option (Gen.DlgTok D Policy.Stmt))
-    (g : Gen.InvTok D C) (loader : L) (a : A) (hs : g.subject ≠ undef)
+    (g : Gen.InvTok D C A) (loader : L) (a : A) (hs : g.subject ≠ undef)
     (hl : LoaderIs extGet loader ldG)
     (hipld : extIPLD a = .ok args)
     (hpol : ∀ c d, ldG c = some d → d.policy = (pol d).map some) :
@@ -149,7 +149,7 @@ theorem executionAllowed_ok_iff_spec {X L A : Type} (x : X) (args : Node) (undef
 /-- the parameters of `executionAllowed` exist as required: a loader over a table of delegations whose policy field holds
 the model policy, and a conversion that yields the arguments -/
 example {X : Type} (x : X) (args : Node) (undef : D) (now : Int)
-    (ldG : C → Option (Gen.DlgTok D Policy.Stmt)) (g : Gen.InvTok D C) (hs : g.subject ≠ undef)
+    (ldG : C → Option (Gen.DlgTok D Policy.Stmt)) (g : Gen.InvTok D C Unit) (hs : g.subject ≠ undef)
     (hwf : ∀ c d, ldG c = some d → d.policy = (d.policy.filterMap id).map some) :
     let pol : Gen.DlgTok D Policy.Stmt → List Policy.Stmt := fun d => d.policy.filterMap id
     let extGet : Unit → C → GoM (Gen.DlgTok D Policy.Stmt) := fun _ c =>
